@@ -315,6 +315,7 @@ type vfWorld struct {
 	stopped  bool
 	nWire    int
 	firstPid map[[2]int]int
+	seqBase  map[[2]int]vfSeqBase // (sender ep, sid) -> preset counters
 	label    string
 }
 
@@ -378,7 +379,7 @@ func (w *vfWorld) emitPkt(ev string, from, pid int, raw []byte, extra map[string
 		wf = append(wf, s)
 	}
 	for _, c := range d.Chunks {
-		m, pr := vfChunkJSON(c, txb, rxb, w.identFrag(from))
+		m, pr := vfChunkJSONb(c, txb, rxb, w.identFrag(from), func(sid int) vfSeqBase { return w.seqBase[[2]int{from, sid}] })
 		chunks = append(chunks, m)
 		kinds = append(kinds, m["k"])
 		for _, s := range pr {
@@ -786,6 +787,32 @@ func (w *vfWorld) open(ep, sid int, ppi uint32) *Stream {
 	return s
 }
 
+// presetSeq moves the sender's SSN / MID counters of stream sid on endpoint ep to base (and the
+// receiver's expected counters likewise, creating the receiving stream object) so that a scenario
+// crosses the 16/32-bit wraps after a few messages. White-box, harness only; call before any traffic
+// on the stream. Sequence numbers in the trace stay relative to the preset.
+func (w *vfWorld) presetSeq(ep, sid int, base vfSeqBase) {
+	if w.seqBase == nil {
+		w.seqBase = map[[2]int]vfSeqBase{}
+	}
+	w.seqBase[[2]int{ep, sid}] = base
+	s := w.stream(ep, sid)
+	s.lock.Lock()
+	s.sequenceNumber, s.nextOrderedMID, s.nextUnorderedMID = base.ssn, base.mid, base.mid
+	s.lock.Unlock()
+	peer := w.ep[1-ep]
+	ps, err := peer.a.OpenStream(uint16(sid), PayloadProtocolIdentifier(51))
+	if err == nil {
+		peer.streams[sid] = ps
+		peer.inc[sid]++
+		ps.lock.Lock()
+		ps.reassemblyQueue.nextSSN, ps.reassemblyQueue.nextMID = base.ssn, base.mid
+		ps.lock.Unlock()
+		w.tr.emit(map[string]any{"ev": "api", "ep": 1 - ep, "op": "open", "sid": sid, "ok": true, "err": "nil", "t": w.now(), "preset": true})
+	}
+	w.tr.emit(map[string]any{"ev": "note", "what": "presetseq", "ep": ep, "sid": sid, "t": w.now()})
+}
+
 func (w *vfWorld) setRel(ep, sid int, unordered bool, rtype byte, rval uint32) {
 	s := w.stream(ep, sid)
 	s.SetReliabilityParams(unordered, rtype, rval)
@@ -1013,10 +1040,11 @@ func (w *vfWorld) project(i int) map[string]any {
 		s := objs[sid]
 		s.lock.RLock()
 		_, isReg := a.streams[uint16(sid)]
+		ob, pb := w.seqBase[[2]int{i, sid}], w.seqBase[[2]int{1 - i, sid}]
 		sts = append(sts, map[string]any{"sid": sid, "ba": int(s.bufferedAmount), "rb": s.reassemblyQueue.getNumBytes(),
-			"ssn": int(s.sequenceNumber), "omid": int(s.nextOrderedMID), "umid": int(s.nextUnorderedMID),
+			"ssn": int(int16(s.sequenceNumber - ob.ssn)), "omid": int(int32(s.nextOrderedMID - ob.mid)), "umid": int(int32(s.nextUnorderedMID - ob.mid)),
 			"state": s.state.String(), "rerr": vfErrClass(s.readErr), "readable": s.reassemblyQueue.isReadable(),
-			"rssn": int(s.reassemblyQueue.nextSSN), "rmid": int(int32(s.reassemblyQueue.nextMID)), "reg": isReg,
+			"rssn": int(int16(s.reassemblyQueue.nextSSN - pb.ssn)), "rmid": int(int32(s.reassemblyQueue.nextMID - pb.mid)), "reg": isReg,
 			"known": e.streams[sid] == s})
 		s.lock.RUnlock()
 	}
